@@ -13,6 +13,7 @@ import (
 	"github.com/metrico/qryn/writer/utils/heputils/cityhash102"
 	"github.com/metrico/qryn/writer/utils/logger"
 	"regexp"
+	"sort"
 	"strconv"
 	"strings"
 	"text/scanner"
@@ -244,8 +245,17 @@ var DecodePushRequestStringV2 = Build(
 	withLogsParser(func(ctx *ParserCtx) iLogsParser { return &pushRequestDec{ctx: ctx} }))
 
 func encodeLabels(lbls [][]string) string {
-	arrLbls := make([]string, len(lbls))
-	for i, l := range lbls {
+	// the fingerprint does not depend on the order of the labels: the document of a label set must not either
+	sorted := make([][]string, len(lbls))
+	copy(sorted, lbls)
+	sort.SliceStable(sorted, func(i, j int) bool {
+		if sorted[i][0] != sorted[j][0] {
+			return sorted[i][0] < sorted[j][0]
+		}
+		return sorted[i][1] < sorted[j][1]
+	})
+	arrLbls := make([]string, len(sorted))
+	for i, l := range sorted {
 		k, _ := jsonApi.MarshalToString(l[0])
 		v, _ := jsonApi.MarshalToString(l[1])
 		arrLbls[i] = fmt.Sprintf("%s:%s", k, v)
